@@ -1,7 +1,7 @@
 (** C03. No spurious loss: without memory pressure an accepted key stays readable
     This file only pins statements: every theorem restates a lemma of proofs/ verbatim and is closed by it. *)
 From CacheD Require Import Base Sketch Model.
-From CacheD.proofs Require Import Closing InvProofs SweepProofs.
+From CacheD.proofs Require Import Closing InvProofs SweepProofs DemandProofs.
 
 (** one event that is not about k, under no memory pressure, leaves k's entry exactly as it was, unless it is
    a sweep at which the entry is due *)
@@ -22,7 +22,7 @@ Print Assumptions C03_now_monotone.
 
 (** without memory pressure an accepted key stays readable with its value, whatever else happens, until
    it is touched itself or its time-to-live elapses *)
-Theorem C03_no_spurious_loss_partial :
+Theorem C03_no_spurious_loss_per_put :
   forall evs cfg s k e, wf_config cfg -> Inv cfg s -> worker s <> Dead ->
   alookup k (store s) = Some e -> e_soft e = false ->
   Forall valid_event evs ->
@@ -32,5 +32,39 @@ Theorem C03_no_spurious_loss_partial :
   (forall t, e_exp e = Some t -> now s' <= t) ->
   alookup k (store s') = Some e /\ served_value k s' = e_val e.
 Proof. close_with no_spurious_loss. Qed.
-Print Assumptions C03_no_spurious_loss_partial.
+Print Assumptions C03_no_spurious_loss_per_put.
+
+(** the total is the sum of the charges of the stored keys, each within its demand, so the incoming key of an
+   absent key always fits *)
+Theorem C03_fitting_demand_no_pressure :
+  forall cfg keys demand s ev,
+  wf_config cfg -> Inv cfg s -> demand_ok cfg keys demand -> within_demand keys demand s ->
+  ~ real_pressure cfg s ev.
+Proof. close_with fitting_demand_no_pressure. Qed.
+Print Assumptions C03_fitting_demand_no_pressure.
+
+(** [step_preserves_entry] with the weaker hypothesis (pressure only counts for puts of absent keys) *)
+Theorem C03_step_preserves_entry_real :
+  forall cfg s ev k e, wf_config cfg -> Inv cfg s -> valid_event ev ->
+  alookup k (store s) = Some e ->
+  ~ touches k s ev -> ~ real_pressure cfg s ev ->
+  (ev = ESweep -> expired_here cfg s e = false) ->
+  alookup k (store (step_state cfg s ev)) = Some e.
+Proof. close_with step_preserves_entry_real. Qed.
+Print Assumptions C03_step_preserves_entry_real.
+
+(** C03 as stated: if the states visited stay within demands that fit the cache, an accepted key stays
+   readable with its value until it is touched itself or its time-to-live elapses *)
+Theorem C03_no_spurious_loss_fitting_demand :
+  forall evs cfg keys demand s k e,
+  wf_config cfg -> Inv cfg s -> worker s <> Dead -> demand_ok cfg keys demand ->
+  alookup k (store s) = Some e -> e_soft e = false ->
+  Forall valid_event evs ->
+  Forall (fun p => within_demand keys demand (fst p) /\ ~ touches k (fst p) (snd p)) (visits cfg s evs) ->
+  let s' := run_from cfg s evs in
+  worker s' <> Dead ->
+  (forall t, e_exp e = Some t -> now s' <= t) ->
+  alookup k (store s') = Some e /\ served_value k s' = e_val e.
+Proof. close_with no_spurious_loss_fitting_demand. Qed.
+Print Assumptions C03_no_spurious_loss_fitting_demand.
 
